@@ -243,6 +243,22 @@ pub fn run(out: &mut Out, tier: &str, seed: u64, _corpus: Option<&str>) {
                             check2(out, format, &blk, q, m, d, a, b2);
                         }
                     }
+                    // ---- opaque black (or near-black) pixels among two or three other opaque colours: the transparent-black entry of
+                    //      BC1's three-colour palette must not be used for them
+                    for _ in 0..(if light { 1 } else { 3 }) {
+                        let (w, h) = (16u32, 8u32);
+                        let mut img = vec![0u8; (w * h * 4) as usize];
+                        for by in 0..2usize { for bx in 0..4usize {
+                            let cols: Vec<[u8; 3]> = (0..2 + rng.below(2)).map(|_| [rng.next() as u8 | 0x40, rng.next() as u8, rng.next() as u8 | 0x80]).collect();
+                            let dark = [rng.below(3) as u8, rng.below(3) as u8, rng.below(3) as u8];
+                            for p in 0..16usize {
+                                let c = if rng.below(3) == 0 { dark } else { cols[rng.below(cols.len() as u64) as usize] };
+                                let i = ((by * 4 + p / 4) * w as usize + bx * 4 + p % 4) * 4;
+                                img[i..i + 3].copy_from_slice(&c); img[i + 3] = 255;
+                            }
+                        } }
+                        check(out, format, &img, w, h, q, m, d, false, "black_among_colours");
+                    }
                     // ---- gradients, noise, extreme alpha patterns, partial edge blocks: opacity, BC1 transparency and portability only
                     for k in 0..(if light { 2 } else if thorough { 24 } else { 6 }) {
                         let (w, h) = match k % 3 { 0 => (16u32, 8u32), 1 => (7, 5), _ => (13, 10) };
